@@ -6,13 +6,14 @@ BUFS = [1, 16, 64, 288, 4096, 8192, 8192, 1 << 20]
 
 BASE = {
     # initial state
-    "init": {"new": 5, "foreign": 3, "foreign_garbage": 2, "foreign_hole": 0.0, "foreign_noncompact": 0.0},
+    "init": {"new": 5, "foreign": 3, "foreign_garbage": 2, "foreign_hole": 0.0, "foreign_noncompact": 0.0,
+             "capture": 0.03},
     "n_choices": [14, 14, 1, 2, 3, 5, 9],
     "files": [1, 1, 1, 2],
     # sessions
     "session": {"w": 10, "ro": 0.6, "out": 0.3, "armed_out": 0.2, "stale": 0.3},
     "end": {"exit": 8, "exit_exc": 1, "kill": 1},
-    "ops": {"add": 10, "remove": 6, "replace": 4, "set": 3, "reput": 1, "read_obs": 1, "read_w": 1,
+    "ops": {"add": 10, "remove": 6, "replace": 4, "set": 3, "reput": 1, "edit_restore": 1, "read_obs": 1, "read_w": 1,
             "reject_all": 0.0, "mode_matrix": 0.0, "decode_twice": 0.3, "copy": 0.2},
     "between": {"scribble": 0.0, "read_obs": 0.3, "clobber": 0.05, "open_bad": 0.03, "copy": 0.1},
     "kinds": gen.KINDS,
@@ -40,19 +41,22 @@ def profile(prop):
         p["opaque"] = 0.8
         p["ops"].update(replace=7, set=4, remove=8)
     elif prop == "C01":
-        p["ops"].update(reput=3, replace=5, set=4)
+        p["ops"].update(reput=3, replace=5, set=4, edit_restore=4)
         p["big"] = 0.05
     elif prop == "C02":
         p["big"] = 0.05
+        p["init"].update(capture=0.12)
+        p["ops"].update(edit_restore=4)
         p["ops"].update(read_w=2)
     elif prop == "C05":
         p["kinds"] = list(gen.SEGMENTED)
-        p["ops"].update(decode_twice=6, add=8, replace=6, set=4, remove=3)
+        p["ops"].update(decode_twice=6, add=8, replace=6, set=4, remove=3, edit_restore=6)
         p["gap_heavy"] = True
-        p["init"] = {"new": 6, "foreign": 3, "foreign_garbage": 1, "foreign_hole": 0, "foreign_noncompact": 0}
+        p["init"] = {"new": 6, "foreign": 3, "foreign_garbage": 1, "foreign_hole": 0, "foreign_noncompact": 0,
+                     "capture": 0.03}
     elif prop == "C06":
-        p["init"].update(foreign=4, foreign_garbage=4)
-        p["ops"].update(reput=2)
+        p["init"].update(foreign=4, foreign_garbage=4, capture=0.12)
+        p["ops"].update(reput=2, edit_restore=2)
     elif prop == "C07":
         p["ops"].update(reject_all=5, add=8, remove=4)
         p["n_choices"] = [14, 14, 2, 3, 5, 9]
@@ -73,7 +77,7 @@ def profile(prop):
         p["n_choices"] = [14, 2, 3, 5, 9]
     elif prop == "C12":
         p["between"].update(scribble=3)
-        p["init"].update(foreign_garbage=5)
+        p["init"].update(foreign_garbage=5, capture=0.12)
         p["ops"].update(reput=3)
     elif prop == "C17":
         p["files"] = [2, 3, 3]
@@ -156,9 +160,15 @@ class Gen:
     def init_file(self, f):
         rng = self.rng
         how = wchoice(rng, self.p["init"])
+        if how == "capture" and any(o["op"] == "capture" for o in self.ops):
+            how = "new"  # at most one 2 MB file per run
         if how == "new":
             self.emit(op="new", f=f)
             self.present[f], self.n[f], self.hole[f] = {}, 14, False
+        elif how == "capture":
+            self.emit(op="capture", f=f)
+            self.present[f] = {c: True for c in (6, 7, 4, 9, 11, 2, 5, 12)}
+            self.n[f], self.hole[f] = 14, False
         else:
             n = rng.choice(self.p["n_choices"])
             k = rng.randint(0, min(n, 5))
@@ -237,6 +247,13 @@ class Gen:
         k = wchoice(rng, self.p["ops"])
         if k in ("add", "remove", "replace", "set", "reput"):
             self.mutation(f, k)
+        elif k == "edit_restore":
+            seg = [c for c, d in self.present[f].items() if d and c in (5, 11, 12, 9, 4, 16)]
+            if seg:
+                self.emit(op="edit_restore", f=f, code=rng.choice(seg), source=rng.choice(("kept", "kept", "decoded")),
+                          via=rng.choice(("replace", "set")), seed=rng.randint(1, 10**9))
+            else:
+                self.mutation(f, "add")
         elif k == "read_obs":
             self.emit(op="read", f=f, who="observer", ctx=rng.random() < 0.6, what=self.some_readers())
         elif k == "read_w":
@@ -325,6 +342,8 @@ class Gen:
         target = rng.randint(lo, hi)
         if self.tier == "thorough" and rng.random() < 0.3:
             target *= 2
+        if any(o["op"] == "capture" for o in self.ops):
+            target = min(target, 9)  # the 2 MB capture makes every audit expensive: short histories
         prev_w = {}
         while len(self.ops) < target:
             files = [f for f, v in self.exists.items() if v is True]
